@@ -147,3 +147,40 @@ package provider
 //@ loop 0 invariant [only-empty-chunks-so-far] imp(calls(d.decoder.DecodeChunk) > 0, result_of(d.decoder.DecodeChunk, 0) == ErrNoAmmoDecoded)
 //@ at call d.decoder.DecodeChunk assert [the-chunk-just-scanned-into-the-caller-s-ammo] arg(a0) == result_of(d.scanner.Bytes, 0) && arg(a1) == ammo0
 //@ ensures [a-chunk-that-fails-is-an-error] imp(calls(d.decoder.DecodeChunk) > 0 && result_of(d.decoder.DecodeChunk, 0) != nil && result_of(d.decoder.DecodeChunk, 0) != ErrNoAmmoDecoded, result != nil)
+
+// ---------------------------------------------------------------- the remaining pieces
+
+// The JSON decoder reads through the error-tracking reader above and shares the remembered read error with it.
+//@ func NewJSONAmmoDecoder
+//@ props C08 C13
+//@ at call jsoniter.Parse assert [the-given-buffer-size] arg(bufSize) == buffSize0
+//@ ensures [decoder-of-that-iterator] typeis(result, *JSONAmmoDecoder) && result.(*JSONAmmoDecoder).iter == result_of(jsoniter.Parse, 0) && result.(*JSONAmmoDecoder).readErrorPtr != nil
+
+// A released ammo goes back to the pool new ammo are taken from.
+//@ func (p *AmmoQueue) Release
+//@ props C03 C08
+//@ requires [what-is-released-was-handed-out-by-this-provider] dyntype(a) == elemtype(p.InputPool)
+//@ at call p.InputPool.Put assert [the-released-ammo] arg(x) == a0
+
+//@ func (n *num) Release
+//@ props C03
+//@ modifies nothing
+
+//@ func (f AmmoDecoderFunc) Decode
+//@ props C08
+//@ requires f != nil
+//@ ensures calls(f) == 1 && result == result_of(f, 0)
+//@ at call f assert arg(a0) == ammo0
+
+// The dummy provider never runs out and never fails.
+//@ func (d Dummy) Run
+//@ props C08
+//@ modifies nothing
+//@ ensures result == nil
+//@ func (d Dummy) Acquire
+//@ props C08
+//@ modifies nothing
+//@ ensures ammo == nil && ok
+//@ func (d Dummy) Release
+//@ props C08
+//@ modifies nothing
